@@ -75,4 +75,24 @@ theorem getDestinationIndex_owner (E : Env) (h : ConsistentHasher) (key : Crng.C
   cases hl'
   exact ⟨e, he, ho, hd⟩
 
+/-- **ConsistentHashing.Dispatch (regenerated)**: a line with a non-empty name is handed to exactly one destination — the
+one at the index `GetDestinationIndex` returns for the name (the text before the first space), chosen by the name only;
+a line without a name is handed to nobody -/
+theorem ch_dispatch_trace (E : Env) (r : ConsistentHashing) (buf : Crng.Code.Bytes) :
+    (r.Dispatch E buf).1 =
+      if Lib.bytes_IndexByte buf 32 > 0 then
+        [Ev.call "dest.In<-"
+          (Lib.idx r.config.Dests (r.config.Hasher.GetDestinationIndex E (Lib.slice buf 0 (Lib.bytes_IndexByte buf 32)))).id [arg buf]]
+      else [] := by
+  unfold ConsistentHashing.Dispatch
+  by_cases h : Lib.bytes_IndexByte buf 32 > 0 <;> simp [h, emit, Res.pure]
+
+/-- the choice depends on the name only: two lines with the same name go to the same destination -/
+theorem ch_dispatch_name_only (E : Env) (r : ConsistentHashing) (b1 b2 : Crng.Code.Bytes)
+    (h1 : Lib.bytes_IndexByte b1 32 > 0) (h2 : Lib.bytes_IndexByte b2 32 > 0)
+    (hn : Lib.slice b1 0 (Lib.bytes_IndexByte b1 32) = Lib.slice b2 0 (Lib.bytes_IndexByte b2 32)) :
+    ∃ d, (r.Dispatch E b1).1 = [Ev.call "dest.In<-" d [arg b1]] ∧ (r.Dispatch E b2).1 = [Ev.call "dest.In<-" d [arg b2]] := by
+  rw [ch_dispatch_trace, ch_dispatch_trace, if_pos h1, if_pos h2, hn]
+  exact ⟨_, rfl, rfl⟩
+
 end Crng.Tie.CodeHasher
